@@ -273,7 +273,7 @@ def tie(ctx):
         check('LighthouseGeometrySolver._params_to_pose', 'solver_params_to_pose', list(r) + t,
               run(lambda: flatp(GS._params_to_pose(np.array(list(r) + t), LighthouseGeometrySolution()))), (0, 1e-12), nt, 'ctor_' + kind)
         qv = E('spec_quat_of_rotvec', r)
-        k = ctx.rng.choice((1.0, -1.0, 0.3, -2.5))
+        k = ctx.rng.choice((1.0, -1.0, 0.3, -2.5, 0.5, 2.0, 1e-3, 1e3, -1e3))       # from_quat normalises
         check('Pose.from_quat (any multiple, antipodal)', 'pose_from_quat', [k * a for a in qv] + t,
               run(lambda: flatp(Pose.from_quat([k * a for a in qv], t))), (0, 1e-12), nt, 'ctor_' + kind)
         if th <= math.pi:
@@ -294,6 +294,11 @@ def tie(ctx):
                 dis.append({'what': 'Pose.rot_quat / rot_vec differ from quat_of_rotvec / quat_to_rotvec (specification '
                                     'trees of the getters)', 'function': 'spec_quat_to_rotvec', 'input': list(r),
                             'model': [qv, want_r], 'impl': [got_q, got_r]})
+    for q in _INT_QUATS:                      # integer-valued, non-unit quaternions
+        qf, t = [float(a) for a in q], _tvec(ctx)
+        check('Pose.from_quat (non-unit integer quaternion)', 'pose_from_quat', qf + t,
+              run(lambda: list(Pose.from_quat(qf, t).rot_matrix.ravel()) + list(Pose.from_quat(qf, t).translation)),
+              (0, 1e-12), True, 'ctor_nonunit_quat')
     for name in ('from_rot_vec', 'from_quat'):
         P = run(lambda: getattr(Pose, name)())
         check('Pose.%s() default' % name, 'pose_%s_default' % name, [],
@@ -1342,6 +1347,183 @@ def _oracle_row_layouts(ctx, n, fails):
     return cnt
 
 
+# ------------------------------------------------------------------------------------------ from_quat, non-unit
+_QUAT_SCALES = (1.0, 0.5, 2.0, 1e-3, 1e3, -1.0, -0.5, -2.0, -1e3, 3.0)
+_INT_QUATS = ([0, 0, 1, 1], [2, 0, 0, 0], [0, 0, 0, 0.5], [1, 1, 1, 1], [1, -2, 3, -4], [0, 3, 0, 4], [0, 0, 0, -1],
+              [1, 0, 0, 1], [-1, 2, 0, 0], [5, 0, 0, 0], [0, 0, 0, 7])
+
+
+def _gen_from_quat(ctx, rvs):
+    if ctx.rng.random() < 0.3:
+        q = [float(a) for a in ctx.rng.choice(_INT_QUATS)]
+    else:
+        kind, r = rvs[ctx.rng.randrange(len(rvs))]
+        th = math.sqrt(sum(a * a for a in r))
+        k = [(a / th) if th else 0.0 for a in r]
+        q = [a * math.sin(th / 2) for a in k] + [math.cos(th / 2)]
+        s = ctx.rng.choice(_QUAT_SCALES)
+        q = [s * a for a in q]
+    return {'fn': 'from_quat', 'q': q, 't': _tvec(ctx), 's': ctx.rng.choice(_QUAT_SCALES), 'x': _tvec(ctx, 5.0)}
+
+
+def _run_from_quat(case):
+    """Pose.from_quat with a NON-UNIT quaternion: the pose is the one of q/|q| -- orthonormal matrix with det 1, same
+    pose for every positive or negative multiple, rot_quat = +-q/|q|, rot_vec / rot_quat views reproduce the matrix,
+    inverse undoes forward.  Returns (class, expected, observed, detail) or None."""
+    import numpy as np
+    from cflib.localization.lighthouse_types import Pose
+    q, t, x = np.array(case['q'], dtype=float), np.array(case['t'], dtype=float), np.array(case['x'], dtype=float)
+    P = Pose.from_quat(q, t)
+    R = P.rot_matrix
+    tol = 1e-9
+    d = max(float(np.max(np.abs(R.T @ R - np.identity(3)))), abs(float(np.linalg.det(R)) - 1.0))
+    if not d <= tol:
+        return ('from_quat_not_rotation', 'orthonormal, det 1', [R.tolist(), d],
+                'from_quat(q).rot_matrix must be a rotation matrix for every non-zero q (q is normalised)')
+    qn = q / math.sqrt(float(np.sum(q * q)))
+    x0, y0, z0, w0 = qn
+    Rw = np.array([[1 - 2 * (y0 * y0 + z0 * z0), 2 * (x0 * y0 - z0 * w0), 2 * (x0 * z0 + y0 * w0)],
+                   [2 * (x0 * y0 + z0 * w0), 1 - 2 * (x0 * x0 + z0 * z0), 2 * (y0 * z0 - x0 * w0)],
+                   [2 * (x0 * z0 - y0 * w0), 2 * (y0 * z0 + x0 * w0), 1 - 2 * (x0 * x0 + y0 * y0)]])
+    if not float(np.max(np.abs(R - Rw))) <= tol:
+        return ('from_quat_not_normalised', Rw.tolist(), R.tolist(), 'from_quat(q).rot_matrix must be the rotation of q/|q|')
+    R2 = Pose.from_quat(case['s'] * q, t).rot_matrix
+    if not float(np.max(np.abs(R2 - R))) <= tol:
+        return ('from_quat_not_normalised', R.tolist(), R2.tolist(),
+                'from_quat(s*q) must be the pose of from_quat(q) for every s != 0 (s = %r)' % case['s'])
+    rq, rv = P.rot_quat, P.rot_vec
+    dq = min(float(np.max(np.abs(rq - qn))), float(np.max(np.abs(rq + qn))))
+    dm = max(float(np.max(np.abs(Pose.from_quat(rq, t).rot_matrix - R))), float(np.max(np.abs(Pose.from_rot_vec(rv, t).rot_matrix - R))))
+    if not (dq <= tol and dm <= tol):
+        return ('views_disagree', [qn.tolist(), 0.0], [rq.tolist(), dm],
+                'rot_quat (= +-q/|q|) and rot_vec of from_quat(q) must describe the same rotation as rot_matrix')
+    sc = 1.0 + float(np.max(np.abs(x))) + float(np.max(np.abs(t)))
+    back, back2 = P.inv_rotate_translate(P.rotate_translate(x)), P.rotate_translate(P.inv_rotate_translate(x))
+    Q = Pose.from_quat(np.array(case['q'][::-1], dtype=float) + 0.25, x)
+    pb = P.inv_rotate_translate_pose(P.rotate_translate_pose(Q))
+    d = max(float(np.max(np.abs(back - x))), float(np.max(np.abs(back2 - x))), _pose_dist(pb, Q))
+    if not d <= tol * sc:
+        return ('pose_inverse', x.tolist(), [back.tolist(), back2.tolist()],
+                'inverse must undo forward for a pose created with from_quat(q), q not of unit length')
+    return None
+
+
+def _oracle_from_quat(ctx, n, fails):
+    cnt = 0
+    cases = [{'fn': 'from_quat', 'q': [float(a) for a in q], 't': [0.5, -1.0, 2.0], 's': s, 'x': [1.0, -2.0, 0.5]}
+             for q in _INT_QUATS for s in (2.0, -0.5)]
+    rvs = rotvecs(ctx, 50)
+    for _ in range(n):
+        cases.append(_gen_from_quat(ctx, rvs))
+    for case in cases:
+        cnt += 6
+        try:
+            f = _run_from_quat(case)
+            if f:
+                _fail(fails, f[0], case, f[1], f[2], f[3])
+        except Exception as e:  # noqa
+            _fail(fails, 'pose_raises', case, 'no exception', repr(e), 'from_quat with a non-zero quaternion raised')
+    return cnt
+
+
+# ------------------------------------------------------------------------------------------ point representations
+_POINT_REPS = ('tuple_int', 'list_int', 'int64', 'int32', 'int16', 'float32', 'bsv_cart', 'float64', 'list_float', 'tuple_mixed')
+
+
+def _make_point(rep, vals):
+    """the point `vals` (3 numbers) in the given representation, and its exact float64 value"""
+    import numpy as np
+    from cflib.localization.lighthouse_bs_vector import LighthouseBsVector as BV
+    ints = [int(round(v)) for v in vals]
+    if rep == 'tuple_int':
+        x = tuple(ints)
+    elif rep == 'list_int':
+        x = list(ints)
+    elif rep in ('int64', 'int32', 'int16'):
+        x = np.array(ints, dtype={'int64': np.int64, 'int32': np.int32, 'int16': np.int16}[rep])
+    elif rep == 'float32':
+        x = np.float32(vals)
+    elif rep == 'bsv_cart':
+        x = BV(0.3 * math.sin(vals[0]), 0.2 * math.cos(vals[1])).cart          # what the library itself hands out
+    elif rep == 'float64':
+        x = np.array(vals, dtype=float)
+    elif rep == 'list_float':
+        x = [float(v) for v in vals]
+    else:
+        x = (ints[0], float(vals[1]), ints[2])
+    return x, np.array(x, dtype=np.float64)          # int and float32 values are exactly representable in float64
+
+
+def _run_point_types(case):
+    """Pose point functions on every representation of a point a caller may pass (npt.ArrayLike): the result is
+    R x + t (resp. R^T (x - t)) computed in float64 from the pose's own views, to 1e-12 -- on HEAD the result is
+    float64 for every argument type and exact; inverse undoes forward, composition = sequential application,
+    distances preserved; the argument is not modified."""
+    import numpy as np
+    from cflib.localization.lighthouse_types import Pose
+    P = Pose.from_rot_vec(case['r'], case['t'])
+    Q = Pose.from_rot_vec(case['r2'], case['t2'])
+    R, t = np.array(P.rot_matrix, dtype=float), np.array(P.translation, dtype=float)
+    x, x64 = _make_point(case['rep'], case['x'])
+    y, y64 = _make_point(case['rep2'], case['y'])
+    snap = np.array(x, dtype=np.float64).copy()
+    sc = 1.0 + float(np.max(np.abs(x64))) + float(np.max(np.abs(y64))) + float(np.max(np.abs(t))) + max(abs(a) for a in case['t2'])
+    tol = 1e-12 * sc
+    what = 'point as %s %r' % (case['rep'], x.tolist() if isinstance(x, np.ndarray) else x)
+    fwd = P.rotate_translate(x)
+    want = R @ x64 + t
+    if np.shape(fwd) != (3,) or not float(np.max(np.abs(np.asarray(fwd, dtype=float) - want))) <= tol:
+        return ('point_transform_wrong', want.tolist(), [np.asarray(fwd).tolist(), str(getattr(fwd, 'dtype', type(fwd)))],
+                'rotate_translate(%s) must be R x + t' % what)
+    inv = P.inv_rotate_translate(x)
+    wanti = R.T @ (x64 - t)
+    if np.shape(inv) != (3,) or not float(np.max(np.abs(np.asarray(inv, dtype=float) - wanti))) <= tol:
+        return ('point_transform_wrong', wanti.tolist(), [np.asarray(inv).tolist(), str(getattr(inv, 'dtype', type(inv)))],
+                'inv_rotate_translate(%s) must be R^T (x - t)' % what)
+    if not np.array_equal(np.array(x, dtype=np.float64), snap):
+        return ('pose_mutates_arguments', snap.tolist(), np.array(x, dtype=float).tolist(), 'the point argument must not be modified')
+    back = P.inv_rotate_translate(P.rotate_translate(x))
+    back2 = P.rotate_translate(P.inv_rotate_translate(x))
+    if not (float(np.max(np.abs(back - x64))) <= 1e-9 * sc and float(np.max(np.abs(back2 - x64))) <= 1e-9 * sc):
+        return ('pose_inverse', x64.tolist(), [np.asarray(back).tolist(), np.asarray(back2).tolist()],
+                'inverse must undo forward for the %s' % what)
+    seq, comp = P.rotate_translate(Q.rotate_translate(x)), P.rotate_translate_pose(Q).rotate_translate(x)
+    if not float(np.max(np.abs(np.asarray(seq, dtype=float) - np.asarray(comp, dtype=float)))) <= 1e-9 * sc or \
+            not float(np.max(np.abs(np.asarray(seq, dtype=float) - (R @ (np.array(Q.rot_matrix) @ x64 + np.array(Q.translation)) + t)))) <= 1e-9 * sc:
+        return ('pose_sequential', np.asarray(comp).tolist(), np.asarray(seq).tolist(),
+                'A(B(x)) must equal (A o B)(x) = R_A (R_B x + t_B) + t_A for the %s' % what)
+    d0 = float(np.linalg.norm(x64 - y64))
+    d1 = float(np.linalg.norm(np.asarray(P.rotate_translate(x), dtype=float) - np.asarray(P.rotate_translate(y), dtype=float)))
+    if not abs(d0 - d1) <= 1e-9 * sc:
+        return ('pose_not_rigid', d0, d1, 'distances must be preserved (%s, second point as %s)' % (what, case['rep2']))
+    return None
+
+
+def _oracle_point_types(ctx, n, fails):
+    cnt = 0
+    rvs = rotvecs(ctx, 40)
+    cases = []
+    for rep in _POINT_REPS:                    # fixed cases: every representation under a non-integer pose
+        cases.append({'fn': 'point_types', 'r': [0.3, -0.2, 1.1], 't': [0.4, -0.3, 0.25], 'r2': [0.0, 0.5, 0.0],
+                      't2': [-2.0, 0.0, 2.5], 'rep': rep, 'x': [4.0, -1.0, 2.0], 'rep2': 'float64', 'y': [0.5, 0.25, -1.5]})
+        cases.append({'fn': 'point_types', 'r': [0.0, 0.0, 0.0], 't': [0.5, 0.0, 0.0], 'r2': [0.0, 0.0, math.pi / 2],
+                      't2': [0.5, 0.0, 0.0], 'rep': rep, 'x': [1.0, 0.0, 0.0], 'rep2': rep, 'y': [0.0, 3.0, -2.0]})
+    for _ in range(n):
+        cases.append({'fn': 'point_types', 'r': list(rvs[ctx.rng.randrange(len(rvs))][1]), 't': _tvec(ctx),
+                      'r2': list(rvs[ctx.rng.randrange(len(rvs))][1]), 't2': _tvec(ctx),
+                      'rep': ctx.rng.choice(_POINT_REPS), 'x': [ctx.rng.uniform(-6, 6) for _ in range(3)],
+                      'rep2': ctx.rng.choice(_POINT_REPS), 'y': [ctx.rng.uniform(-6, 6) for _ in range(3)]})
+    for case in cases:
+        cnt += 6
+        try:
+            f = _run_point_types(case)
+            if f:
+                _fail(fails, f[0], case, f[1], f[2], f[3])
+        except Exception as e:  # noqa
+            _fail(fails, 'pose_raises', case, 'no exception', repr(e), 'a point function raised for this point representation')
+    return cnt
+
+
 def _corpus(ctx):
     import glob
     import json
@@ -1383,6 +1565,8 @@ def oracle(ctx, deep=False):
     n += _oracle_paths(_path_rows(ctx, sz(4000, 15000, 60000)), fails)
     n += _oracle_solver_reuse(ctx, sz(300, 1000, 3000), fails)
     n += _oracle_row_layouts(ctx, sz(400, 1200, 4000), fails)
+    n += _oracle_from_quat(ctx, sz(400, 1200, 4000), fails)
+    n += _oracle_point_types(ctx, sz(600, 2000, 6000), fails)
     n += _oracle_pose_misc(ctx, sz(300, 1000, 3000), fails)
     n += _oracle_history(ctx, sz(600, 2000, 6000), fails)
     n += _oracle_scaler(ctx, sz(100, 300, 1000), fails)
@@ -1424,6 +1608,14 @@ def _replay_case(c):
         from cflib.localization.lighthouse_types import LhDeck4SensorPositions, Pose
         S = np.array(LhDeck4SensorPositions.positions, dtype=float)
         for f in _solver_reuse_case(c, np, GS, LighthouseGeometrySolution(), S, S.shape[0], Pose):
+            _fail(fails, f[0], c, f[1], f[2], f[3])
+    elif fn == 'point_types':
+        f = _run_point_types(c)
+        if f:
+            _fail(fails, f[0], c, f[1], f[2], f[3])
+    elif fn == 'from_quat':
+        f = _run_from_quat(c)
+        if f:
             _fail(fails, f[0], c, f[1], f[2], f[3])
     elif fn == 'row_layout':
         f = _run_row_layout(c)
